@@ -485,3 +485,660 @@ Proof.
         -- right. exists r. split; [exact A|]. split; [|exact C].
            destruct (has cbrF r) eqn:E'; [|reflexivity]. apply I1 in E'. congruence.
 Qed.
+
+(* ------------------------------------------------------------------ one attempt on a component / on a queued model *)
+Lemma create_try_ext s n s' r : create_try s n = (s', r) -> ext s s'.
+Proof.
+  unfold create_try. destruct (exec (ctx_of n) s (n_create n)) as [s1 [c|]] eqn:E; intro H; inversion H; subst; clear H.
+  - destruct (exec_ext _ _ _ _ _ E) as (X1 & X2 & X3 & X4). unfold revert. repeat split; cbn; try apply keys_le_refl; auto. apply incl_refl.
+  - destruct (exec_ext _ _ _ _ _ E) as (X1 & X2 & X3 & X4). repeat split; cbn; auto.
+    eapply keys_le_trans; [exact X1|apply keys_le_cons].
+Qed.
+
+Lemma create_try_fail s n s' c : create_try s n = (s', Some c) -> s_cbr s' = s_cbr s /\ s_cbn s' = s_cbn s /\ s_queue s' = s_queue s.
+Proof.
+  unfold create_try. destruct (exec (ctx_of n) s (n_create n)) as [s1 [c1|]] eqn:E; intro H; inversion H; subst. cbn. auto.
+Qed.
+
+Lemma create_try_succ s n s' : create_try s n = (s', None) ->
+  (exists pl, s_cbr s' = (n_ref n, pl) :: s_cbr s) /\ prog_done (n_entries n) (n_create n) s'.
+Proof.
+  unfold create_try. destruct (exec (ctx_of n) s (n_create n)) as [s1 [c1|]] eqn:E; intro H; inversion H; subst; clear H.
+  destruct (exec_frame _ _ _ _ _ E) as (A1 & _). cbn [s_cbr]. split; [rewrite A1; eauto|].
+  eapply prog_done_ext; [|exact (exec_done _ _ _ _ E)].
+  repeat split; cbn; try apply keys_le_refl; try apply incl_refl. apply keys_le_cons.
+Qed.
+
+Lemma proc_try_frame s q s' r : proc_try s q = (s', r) -> s_cbr s' = s_cbr s /\ s_queue s' = s_queue s /\ ext s s'.
+Proof.
+  unfold proc_try. destruct (exec ctx_proc s (e_prog (q_entry q))) as [s1 [c|]] eqn:E; intro H; inversion H; subst; clear H;
+    destruct (exec_frame _ _ _ _ _ E) as (A1 & A2 & A3 & A4 & A5); cbn.
+  - repeat split; cbn; try apply keys_le_refl; auto. apply incl_refl.
+  - repeat split; cbn; auto; try apply incl_refl. rewrite A1. apply keys_le_refl.
+Qed.
+
+Lemma prog_done_nil_frame p s s' : s_cbr s' = s_cbr s -> s_cbn s' = s_cbn s -> s_deps s' = s_deps s ->
+  prog_done [] p s -> prog_done [] p s'.
+Proof.
+  intros E1 E2 E3 (D1 & D2 & D3 & D4). unfold prog_done. rewrite E1, E2, E3. repeat split; eauto.
+  - eapply D1; eauto. - eapply D1; eauto.
+  - intros i c k e _ _ Hn. destruct k; discriminate.
+Qed.
+
+Lemma prog_done_drop_ents ents p s : prog_done ents p s -> prog_done [] p s.
+Proof.
+  intros (D1 & D2 & D3 & D4). repeat split; eauto; try (eapply D1; eauto).
+  intros i c k e _ _ Hn. destruct k; discriminate.
+Qed.
+
+Lemma proc_try_succ s q s' : proc_try s q = (s', None) -> prog_done [] (e_prog (q_entry q)) s'.
+Proof.
+  unfold proc_try. destruct (exec ctx_proc s (e_prog (q_entry q))) as [s1 [c|]] eqn:E; intro H; inversion H; subst; clear H.
+  eapply prog_done_nil_frame; [| | |exact (exec_done _ _ _ _ E)]; reflexivity.
+Qed.
+
+Lemma nodup_n_spec l : nodup_n l = true -> NoDup l.
+Proof.
+  induction l as [|x l IH]; cbn [nodup_n]; intro H; [constructor|].
+  apply andb_true_iff in H. destruct H as [H1 H2]. constructor; [|now apply IH].
+  intro Hin. apply mem_in in Hin. rewrite Hin in H1. discriminate.
+Qed.
+
+Lemma ref_inj (g : graph) n m : NoDup (map n_ref g) -> In n g -> In m g -> n_ref n = n_ref m -> n = m.
+Proof.
+  induction g as [|a g IH]; cbn [map]; intros Hnd Hn Hm E; [contradiction|].
+  inversion Hnd as [|? ? Hni Hnd']; subst.
+  destruct Hn as [Hn|Hn], Hm as [Hm|Hm]; subst; auto.
+  - exfalso. apply Hni. rewrite E. now apply in_map.
+  - exfalso. apply Hni. rewrite <- E. now apply in_map.
+Qed.
+
+(* ------------------------------------------------------------------ the create phase *)
+Definition inv_create (g : graph) (s : st) : Prop :=
+  forall n, In n g -> has (s_cbr s) (n_ref n) = true -> prog_done (n_entries n) (n_create n) s.
+
+Lemma create_todo_in g n : In n (create_todo g) -> In n g.
+Proof. unfold create_todo. intro H. apply filter_In in H. tauto. Qed.
+
+Lemma create_phase_spec g : NoDup (map n_ref g) ->
+  inv_create g (r_st (create_loop g)) /\
+  (forall n, In n (create_todo g) -> has (s_cbr (r_st (create_loop g))) (n_ref n) = true \/ exists c, In (n, c) (r_retry (create_loop g))).
+Proof.
+  intro Hnd. unfold create_loop, run_loop.
+  pose proof (loop_inv create_try no_final (inv_create g) (fun n s => has (s_cbr s) (n_ref n) = true) (fun n => In n g)) as L.
+  assert (P_step : forall s x s' r, In x g -> inv_create g s -> create_try s x = (s', r) -> inv_create g s').
+  { intros s x s' r Hx HI Ht n Hn Hh. pose proof (create_try_ext _ _ _ _ Ht) as X. destruct r as [c|].
+    - destruct (create_try_fail _ _ _ _ Ht) as (E1 & _). rewrite E1 in Hh. eapply prog_done_ext; [exact X|]. now apply HI.
+    - destruct (create_try_succ _ _ _ Ht) as [[pl E1] Hd]. rewrite E1, has_cons in Hh. apply orb_true_iff in Hh.
+      destruct Hh as [Hh|Hh].
+      + apply N.eqb_eq in Hh. assert (x = n) by (eapply ref_inj; eauto). subst x. exact Hd.
+      + eapply prog_done_ext; [exact X|]. now apply HI. }
+  assert (Q_step : forall s x y s' r, In y g -> inv_create g s -> create_try s y = (s', r) ->
+                                      has (s_cbr s) (n_ref x) = true -> has (s_cbr s') (n_ref x) = true).
+  { intros s x y s' r _ _ Ht Hh. destruct (create_try_ext _ _ _ _ Ht) as (X1 & _). now apply X1. }
+  assert (Q_succ : forall s x s', In x g -> inv_create g s -> create_try s x = (s', None) -> has (s_cbr s') (n_ref x) = true).
+  { intros s x s' _ _ Ht. destruct (create_try_succ _ _ _ Ht) as [[pl E1] _]. rewrite E1, has_cons, N.eqb_refl. reflexivity. }
+  specialize (L P_step Q_step Q_succ (S (length (create_todo g))) (create_todo g) st0 []).
+  assert (H0 : inv_create g st0) by (intros n _ Hh; unfold st0, has in Hh; cbn in Hh; discriminate).
+  specialize (L (Nat.lt_succ_diag_r _) (create_todo_in g) H0). cbn zeta in L.
+  destruct L as (L1 & L2 & L3 & L4 & L5 & L6). split; [exact L1|].
+  intros n Hn. destruct (L3 n Hn) as [H|[H|[c H]]]; [now left|now right|].
+  destruct (L6 n c H) as [[]|H']. exfalso.
+  (* no_final never makes an error final *)
+  clear - H. revert H. generalize (S (length (create_todo g))) as f. generalize (create_todo g) as todo. generalize st0 as s.
+  assert (R : forall todo s, r_final (round create_try no_final s todo) = []).
+  { induction todo as [|x t IH]; intro s; cbn [round]; [reflexivity|].
+    destruct (create_try s x) as [s' [c'|]]; cbn [no_final r_final]; apply IH. }
+  assert (Lp : forall f s todo fin, r_final (loop create_try no_final f s todo fin) = fin).
+  { induction f as [|f IH]; intros s todo fin; cbn [loop]; [reflexivity|].
+    destruct (r_prog (round create_try no_final s todo)); [rewrite IH|cbn [r_final]]; rewrite R; apply app_nil_r. }
+  intros s todo f. rewrite Lp. intros [].
+Qed.
+
+(* without any assumption on the graph: every pending component is created or carries an error of the last round *)
+Lemma create_phase_account g n : In n (create_todo g) ->
+  has (s_cbr (r_st (create_loop g))) (n_ref n) = true \/ exists c, In (n, c) (r_retry (create_loop g)).
+Proof.
+  intro Hn. unfold create_loop, run_loop.
+  pose proof (loop_inv create_try no_final (fun _ => True) (fun n s => has (s_cbr s) (n_ref n) = true) (fun _ => True)) as L.
+  assert (P_step : forall (s : st) (x : node) (s' : st) (r : option N), True -> (fun _ : st => True) s -> create_try s x = (s', r) -> (fun _ : st => True) s') by auto.
+  assert (Q_step : forall s x y s' r, True -> True -> create_try s y = (s', r) ->
+                                      has (s_cbr s) (n_ref x) = true -> has (s_cbr s') (n_ref x) = true).
+  { intros s x y s' r _ _ Ht Hh. destruct (create_try_ext _ _ _ _ Ht) as (X1 & _). now apply X1. }
+  assert (Q_succ : forall s x s', True -> True -> create_try s x = (s', None) -> has (s_cbr s') (n_ref x) = true).
+  { intros s x s' _ _ Ht. destruct (create_try_succ _ _ _ Ht) as [[pl E1] _]. rewrite E1, has_cons, N.eqb_refl. reflexivity. }
+  specialize (L P_step Q_step Q_succ (S (length (create_todo g))) (create_todo g) st0 [] (Nat.lt_succ_diag_r _) (fun _ _ => I) I).
+  cbn zeta in L. destruct L as (_ & _ & L3 & _ & _ & L6).
+  destruct (L3 n Hn) as [H|[H|[c H]]]; [now left|now right|].
+  exfalso. revert H. generalize (S (length (create_todo g))) as f. generalize (create_todo g) as todo. generalize st0 as s.
+  assert (R : forall todo s, r_final (round create_try no_final s todo) = []).
+  { induction todo as [|x t IH]; intro s; cbn [round]; [reflexivity|].
+    destruct (create_try s x) as [s' [c'|]]; cbn [no_final r_final]; apply IH. }
+  assert (Lp : forall f s todo fin, r_final (loop create_try no_final f s todo fin) = fin).
+  { induction f as [|f IH]; intros s todo fin; cbn [loop]; [reflexivity|].
+    destruct (r_prog (round create_try no_final s todo)); [rewrite IH|cbn [r_final]]; rewrite R; apply app_nil_r. }
+  intros s todo f. rewrite Lp. intros [].
+Qed.
+
+(* ------------------------------------------------------------------ the process phase *)
+Lemma process_phase_spec s1 :
+  s_cbr (r_st (process_loop s1)) = s_cbr s1 /\ ext s1 (r_st (process_loop s1)) /\
+  (forall q, In q (s_queue s1) ->
+     prog_done [] (e_prog (q_entry q)) (r_st (process_loop s1)) \/
+     (exists c, In (q, c) (r_retry (process_loop s1))) \/ (exists c, In (q, c) (r_final (process_loop s1)))) /\
+  (forall q c, In (q, c) (r_retry (process_loop s1)) -> In q (s_queue s1)) /\
+  (forall q c, In (q, c) (r_final (process_loop s1)) -> In q (s_queue s1)).
+Proof.
+  unfold process_loop, run_loop.
+  pose proof (loop_inv proc_try is_rec (fun s => s_cbr s = s_cbr s1 /\ ext s1 s)
+                (fun q s => prog_done [] (e_prog (q_entry q)) s) (fun _ => True)) as L.
+  assert (P_step : forall s x s' r, True -> (s_cbr s = s_cbr s1 /\ ext s1 s) -> proc_try s x = (s', r) -> (s_cbr s' = s_cbr s1 /\ ext s1 s')).
+  { intros s x s' r _ [E X] Ht. destruct (proc_try_frame _ _ _ _ Ht) as (A1 & A2 & A3). split; [congruence|eapply ext_trans; eauto]. }
+  assert (Q_step : forall s (x y : qitem) s' r, True -> (s_cbr s = s_cbr s1 /\ ext s1 s) -> proc_try s y = (s', r) ->
+             prog_done [] (e_prog (q_entry x)) s -> prog_done [] (e_prog (q_entry x)) s').
+  { intros s x y s' r _ _ Ht Hd. destruct (proc_try_frame _ _ _ _ Ht) as (A1 & A2 & A3). eapply prog_done_ext; [exact A3|exact Hd]. }
+  assert (Q_succ : forall s x s', True -> (s_cbr s = s_cbr s1 /\ ext s1 s) -> proc_try s x = (s', None) -> prog_done [] (e_prog (q_entry x)) s').
+  { intros s x s' _ _ Ht. exact (proc_try_succ _ _ _ Ht). }
+  specialize (L P_step Q_step Q_succ (S (length (s_queue s1))) (s_queue s1) s1 [] (Nat.lt_succ_diag_r _) (fun _ _ => I)
+                (conj eq_refl (ext_refl s1))).
+  cbn zeta in L. destruct L as ((L1a & L1b) & L2 & L3 & L4 & L5 & L6).
+  split; [exact L1a|]. split; [exact L1b|]. split; [exact L3|]. split; [exact L5|].
+  intros q c H. destruct (L6 q c H) as [[]|H']. exact H'.
+Qed.
+
+(* ------------------------------------------------------------------ T accounting (C07, schema part), for ALL graphs:
+   every component of the document is a survivor, or a diagnostic names it (as the unit that could not be parsed, or in the
+   removal list of the error whose cascade deleted it) *)
+Theorem accounting g n : In n g ->
+  has (res_cbr (build_schemas g)) (n_ref n) = true \/
+  exists e, In e (res_errs (build_schemas g)) /\ ((er_create e = true /\ er_unit e = n_ref n) \/ In (n_ref n) (er_removed e)).
+Proof.
+  intro Hn. unfold build_schemas.
+  destruct (model_errors _ _ _ _) as [[cbrF cbnF] es] eqn:M. cbn [res_cbr res_errs].
+  destruct (model_errors_spec _ _ _ _ _ _ _ M) as (M1 & M2 & M3 & M4 & M5 & M6 & M7).
+  destruct (process_phase_spec (r_st (create_loop g))) as (P1 & P2 & P3 & P4 & P5).
+  destruct (n_isref n) eqn:Eref.
+  - right. exists (mkErr true (n_ref n) cat_reference_schema [] []). split; [|left; split; reflexivity].
+    apply in_or_app. left. unfold create_errs. apply in_or_app. left. unfold ref_errs.
+    apply in_map_iff. exists n. split; [reflexivity|]. apply filter_In. split; assumption.
+  - assert (Ht : In n (create_todo g)) by (unfold create_todo; apply filter_In; split; [exact Hn|now rewrite Eref]).
+    destruct (create_phase_account g n Ht) as [Hc|[c Hc]].
+    + rewrite <- P1 in Hc. destruct (has cbrF (n_ref n)) eqn:EF; [now left|].
+      destruct (M4 _ Hc EF) as [[e [He1 He2]] _]. right. exists e. split; [apply in_or_app; now right|now right].
+    + right. exists (mkErr true (n_ref n) c [] []). split; [|left; split; reflexivity].
+      apply in_or_app. left. unfold create_errs. apply in_or_app. right.
+      apply in_map_iff. exists (n, c). split; [reflexivity|exact Hc].
+Qed.
+
+(* ------------------------------------------------------------------ well-formedness, unpacked *)
+Lemma pushes_spec p k c : pushes p k c = true -> exists i, In i p /\ i_op i = OMintModel c (Some k).
+Proof.
+  unfold pushes. rewrite existsb_exists. intros [i [Hi H]]. exists i. split; [exact Hi|].
+  destruct (i_op i) as [| | | |c' [k'|]|]; try discriminate. apply andb_true_iff in H. destruct H as [H1 H2].
+  apply Nat.eqb_eq in H1. apply N.eqb_eq in H2. now subst.
+Qed.
+
+Lemma entries_pushed_spec p : forall es k, entries_pushed p k es = true ->
+  forall j e, nth_error es j = Some e -> exists i, In i p /\ i_op i = OMintModel (e_cls e) (Some (k + j)%nat).
+Proof.
+  induction es as [|e0 es IH]; intros k H j e Hn; [destruct j; discriminate|].
+  cbn [entries_pushed] in H. apply andb_true_iff in H. destruct H as [H1 H2]. destruct j as [|j]; cbn [nth_error] in Hn.
+  - inversion Hn; subst. rewrite Nat.add_0_r. now apply pushes_spec.
+  - destruct (IH _ H2 _ _ Hn) as [i [Hi Ho]]. exists i. split; [exact Hi|]. rewrite Ho. f_equal. f_equal. lia.
+Qed.
+
+Lemma wf_node_pushed n e : wf_node n = true -> In e (n_entries n) ->
+  exists i k, In i (n_create n) /\ i_op i = OMintModel (e_cls e) (Some k) /\ nth_error (n_entries n) k = Some e.
+Proof.
+  unfold wf_node. intros H He. apply andb_true_iff in H. destruct H as [H _]. apply andb_true_iff in H. destruct H as [H _].
+  destruct (In_nth_error _ _ He) as [j Hj].
+  destruct (entries_pushed_spec _ _ _ H _ _ Hj) as [i [Hi Ho]]. exists i, j. auto.
+Qed.
+
+Lemma roots_self_spec r rs r' : roots_self r rs = true -> In (RRef r') rs -> r' = r.
+Proof.
+  unfold roots_self. rewrite forallb_forall. intros H Hin. specialize (H _ Hin). cbn in H. now apply N.eqb_eq in H.
+Qed.
+
+Lemma wf_node_entry_self n e r : wf_node n = true -> In e (n_entries n) -> In (RRef r) (e_roots e) -> r = n_ref n.
+Proof.
+  unfold wf_node. intros H He Hr. apply andb_true_iff in H. destruct H as [_ H]. rewrite forallb_forall in H.
+  specialize (H _ He). apply andb_true_iff in H. destruct H as [H _]. eapply roots_self_spec; eauto.
+Qed.
+
+Lemma wf_graph_spec g : wf_graph g = true -> NoDup (map n_ref g) /\ forall n, In n g -> wf_node n = true.
+Proof.
+  unfold wf_graph. intro H. apply andb_true_iff in H. destruct H as [H1 H2]. split; [now apply nodup_n_spec|].
+  now apply forallb_forall.
+Qed.
+
+Lemma guard_spec g : g_no_union_edge_to_failing g = true ->
+  (forall n, In n g -> forall e, In e (node_edges n) ->
+     recorded n e = true \/ has (res_cbr (build_schemas g)) (snd (fst e)) = true) /\
+  (forall x, In x (res_errs (build_schemas g)) -> er_create x = true \/ exists r, In (RRef r) (er_roots x)).
+Proof.
+  unfold g_no_union_edge_to_failing. cbn zeta. intro H. apply andb_true_iff in H. destruct H as [H1 H2]. split.
+  - intros n Hn e He. rewrite forallb_forall in H1. specialize (H1 _ Hn). rewrite forallb_forall in H1. specialize (H1 _ He).
+    now apply orb_true_iff in H1.
+  - intros x Hx. rewrite forallb_forall in H2. specialize (H2 _ Hx). apply orb_true_iff in H2. destruct H2 as [H2|H2]; [now left|right].
+    apply existsb_exists in H2. destruct H2 as [[r|c] [Hr1 Hr2]]; [eauto|discriminate].
+Qed.
+
+(* ------------------------------------------------------------------ everything the three phases establish, in one place *)
+Lemma build_facts g :
+  let R := build_schemas g in
+  let s1 := r_st (create_loop g) in
+  let pl := process_loop s1 in
+  let s2 := r_st pl in
+  let mes := r_final pl ++ r_retry pl in
+  exists es, res_errs R = create_errs g ++ es /\ res_deps R = s_deps s2 /\
+    keys_le (res_cbr R) (s_cbr s2) /\ keys_le (res_cbn R) (s_cbn s2) /\
+    (forall q c x, In (q, c) mes -> In x (e_roots (q_entry q)) -> handled x (res_cbr R) (res_cbn R)) /\
+    (forall r, has (s_cbr s2) r = true -> has (res_cbr R) r = false ->
+               (exists e, In e es /\ In r (er_removed e)) /\ forall x, In (r, x) (s_deps s2) -> handled x (res_cbr R) (res_cbn R)) /\
+    (forall q c, In (q, c) mes -> exists e, In e es /\ er_create e = false /\ er_unit e = q_name q /\ er_cat e = c /\
+                                            er_roots e = e_roots (q_entry q)) /\
+    (forall e, In e es -> er_create e = false /\
+                 (exists q c, In (q, c) mes /\ er_unit e = q_name q /\ er_roots e = e_roots (q_entry q) /\ er_cat e = c) /\
+                 forall r, In r (er_removed e) -> has (s_cbr s2) r = true /\ has (res_cbr R) r = false) /\
+    (forall c, has (s_cbn s2) c = true -> has (res_cbn R) c = false ->
+               (exists q cat, In (q, cat) mes /\ In (RCls c) (e_roots (q_entry q))) \/
+               exists r, has (s_cbr s2) r = true /\ has (res_cbr R) r = false /\ In (r, RCls c) (s_deps s2)).
+Proof.
+  cbn zeta. unfold build_schemas. destruct (model_errors _ _ _ _) as [[cbrF cbnF] es] eqn:M. cbn [res_cbr res_cbn res_errs res_deps].
+  destruct (model_errors_spec _ _ _ _ _ _ _ M) as (M1 & M2 & M3 & M4 & M5 & M6 & M7).
+  exists es. split; [reflexivity|]. split; [reflexivity|]. split; [exact M1|]. split; [exact M2|].
+  split; [exact M3|]. split; [exact M4|]. split; [exact M5|]. split; [exact M6|exact M7].
+Qed.
+
+(* ------------------------------------------------------------------ T removal_closed (C08): under the guard, every reference
+   in the description of a surviving component (in its create instructions or in the instructions of any model class it gives
+   rise to: items, wrappers, union members, properties, additionalProperties, allOf parents) points at a survivor *)
+Theorem removal_closed g : wf_graph g = true -> g_no_union_edge_to_failing g = true ->
+  forall n, In n g -> has (res_cbr (build_schemas g)) (n_ref n) = true ->
+  forall e, In e (node_edges n) -> has (res_cbr (build_schemas g)) (snd (fst e)) = true.
+Proof.
+  intros Hwf Hg n Hn Hs e He.
+  destruct (wf_graph_spec _ Hwf) as [Hnd Hwn]. destruct (guard_spec _ Hg) as [G1 G2].
+  destruct (build_facts g) as [es (F1 & F2 & F3 & F4 & F5 & F6 & F7 & F8 & F9)]. cbn zeta in *.
+  set (R := build_schemas g) in *. set (s1 := r_st (create_loop g)) in *. set (pl := process_loop s1) in *. set (s2 := r_st pl) in *.
+  destruct (create_phase_spec g Hnd) as [IC _]. fold s1 in IC.
+  destruct (process_phase_spec s1) as (P1 & P2 & P3 & P4 & P5). fold pl in P1, P2, P3, P4, P5. fold s2 in P1, P2, P3.
+  assert (Hs1 : has (s_cbr s1) (n_ref n) = true) by (rewrite <- P1; apply F3, Hs).
+  destruct e as [[k t] rs]. cbn [fst snd].
+  (* it is enough that the edge was executed against the state before the removals *)
+  assert (Hexec : has (s_cbr s2) t = true /\ forall x, In x rs -> In (t, x) (s_deps s2)).
+  { unfold node_edges in He. apply in_app_or in He. destruct He as [He|He].
+    - destruct (IC n Hn Hs1) as (D1 & _). destruct (D1 _ _ _ He) as [A B]. destruct P2 as (X1 & X2 & X3 & X4).
+      split; [now apply X1|intros x Hx; now apply X3, B].
+    - apply in_flat_map in He. destruct He as [en [Hen He]].
+      destruct (wf_node_pushed n en (Hwn n Hn) Hen) as [i [j (Hi & Ho & Hj)]].
+      destruct (IC n Hn Hs1) as (_ & _ & D3 & _). destruct (D3 i _ _ _ Hi Ho Hj) as [ow Hq].
+      destruct (P3 _ Hq) as [Hd|Herr].
+      + destruct Hd as (D1 & _). cbn [q_entry] in D1. exact (D1 _ _ _ He).
+      + exfalso.
+        assert (Hm : exists c, In (mkQ ow (e_name en) en, c) (r_final pl ++ r_retry pl)).
+        { destruct Herr as [[c H]|[c H]]; exists c; apply in_or_app; [now right|now left]. }
+        destruct Hm as [c Hm]. destruct (F7 _ _ Hm) as [er (E1 & E2 & E3 & E4 & E5)]. cbn [q_entry] in E5.
+        assert (Hin : In er (res_errs R)) by (rewrite F1; apply in_or_app; now right).
+        destruct (G2 er Hin) as [Hc|[r Hr]]; [congruence|].
+        rewrite E5 in Hr. pose proof (wf_node_entry_self n en r (Hwn n Hn) Hen Hr) as ->.
+        specialize (F5 _ _ _ Hm Hr). cbn in F5. congruence. }
+  destruct Hexec as [Ht Hrec].
+  destruct (G1 n Hn (k, t, rs) He) as [Hr|Hr]; [|exact Hr].
+  destruct (has (res_cbr R) t) eqn:Et; [reflexivity|exfalso].
+  destruct (F6 t Ht Et) as [_ Hc]. unfold recorded in Hr. cbn [snd] in Hr. apply mem_root_in in Hr.
+  specialize (Hc _ (Hrec _ Hr)). cbn in Hc. congruence.
+Qed.
+
+(* ------------------------------------------------------------------ T loops_terminate (C06/C08): the fuel the model gives each of
+   the three loops suffices for EVERY graph: more fuel never changes the result, and both retry loops end in a round that made
+   no progress (never by exhausting the fuel) *)
+Theorem loops_terminate g :
+  (forall k, loop create_try no_final (S (length (create_todo g)) + k) st0 (create_todo g) [] = create_loop g) /\
+  (forall s k, loop proc_try is_rec (S (length (s_queue s)) + k) s (s_queue s) [] = process_loop s) /\
+  (forall D work cbr cbn k, remove_wl (remove_fuel D work cbr + k) D work cbr cbn [] = remove_roots D work cbr cbn) /\
+  r_prog (create_loop g) = false /\ (forall s, r_prog (process_loop s) = false).
+Proof.
+  split; [|split; [|split; [|split]]].
+  - intro k. unfold create_loop, run_loop. apply loop_fuel; lia.
+  - intros s k. unfold process_loop, run_loop. apply loop_fuel; lia.
+  - intros D work cbr cbn k. unfold remove_roots, remove_fuel. apply remove_wl_fuel; lia.
+  - unfold create_loop, run_loop. apply loop_exit. lia.
+  - intro s. unfold process_loop, run_loop. apply loop_exit. lia.
+Qed.
+
+(* ------------------------------------------------------------------ R union_dependency_unrecorded (C08): the guard cannot be dropped.
+   A = object with a property that is an array without items (fails in process_model), U = anyOf[$ref A, string],
+   M = object { u: $ref U }.  A is removed; U and M survive; U's description refers to A.  (ids: A=1 U=2 M=3) *)
+Definition witness_union : graph :=
+  [mkN 1 false (TModel 0%nat) [mkI (OMintModel 1 (Some 0%nat)) 0] [mkE 1 1 [RRef 1; RCls 1] [mkI (OFail 1) 0]];
+   mkN 2 false TOther [mkI (ONeed EUnion 1 [] 0 false) 10] [];
+   mkN 3 false (TModel 0%nat) [mkI (OMintModel 2 (Some 0%nat)) 0] [mkE 3 2 [RRef 3; RCls 2] [mkI (ONeed EProp 2 [RRef 3; RCls 2] 0 false) 0]]].
+
+Theorem union_dependency_unrecorded_refuted :
+  exists g, wf_graph g = true /\ g_no_name_pressure g = true /\ g_no_union_edge_to_failing g = false /\
+    exists n e, In n g /\ has (res_cbr (build_schemas g)) (n_ref n) = true /\ In e (node_edges n) /\
+                has (res_cbr (build_schemas g)) (snd (fst e)) = false.
+Proof.
+  exists witness_union. split; [vm_compute; reflexivity|]. split; [vm_compute; reflexivity|]. split; [vm_compute; reflexivity|].
+  exists (mkN 2 false TOther [mkI (ONeed EUnion 1 [] 0 false) 10] []), (EUnion, 1, []).
+  split; [right; left; reflexivity|]. split; [vm_compute; reflexivity|]. split; [left; reflexivity|vm_compute; reflexivity].
+Qed.
+
+(* the same shape through an `items` edge cascades: the guard holds, A, L and N are all removed with one diagnostic *)
+Definition witness_item : graph :=
+  [mkN 1 false (TModel 0%nat) [mkI (OMintModel 1 (Some 0%nat)) 0] [mkE 1 1 [RRef 1; RCls 1] [mkI (OFail 1) 0]];
+   mkN 2 false TOther [mkI (ONeed EItem 1 [RRef 2] 0 false) 0] [];
+   mkN 3 false (TModel 0%nat) [mkI (OMintModel 2 (Some 0%nat)) 0] [mkE 3 2 [RRef 3; RCls 2] [mkI (ONeed EProp 2 [RRef 3; RCls 2] 0 false) 0]];
+   mkN 4 false (TModel 0%nat) [mkI (OMintModel 3 (Some 0%nat)) 0] [mkE 4 3 [RRef 4; RCls 3] []]].
+Example guard_satisfiable :
+  wf_graph witness_item = true /\ g_no_name_pressure witness_item = true /\ g_no_union_edge_to_failing witness_item = true /\
+  survivors witness_item = [4] /\ map er_removed (res_errs (build_schemas witness_item)) = [[1; 2; 3]].
+Proof. vm_compute. repeat split; reflexivity. Qed.
+
+(* ------------------------------------------------------------------ provenance invariants: every queued model and every payload is
+   an entry of some component; every recorded dependency was declared by an instruction of some component, with ALL its roots *)
+Definition AE (g : graph) (e : entry) : Prop := exists m, In m g /\ In e (n_entries m).
+Definition inv_q (g : graph) (s : st) : Prop :=
+  (forall q, In q (s_queue s) -> AE g (q_entry q)) /\ (forall r e, lookup (s_cbr s) r = Some (PModel e) -> AE g e).
+
+Definition prog_of (m : node) (p : list instr) : Prop := p = n_create m \/ exists e, In e (n_entries m) /\ p = e_prog e.
+Definition dep_decl (D : list (ref * root)) (o : op) (t : ref) (x : root) : Prop :=
+  match o with
+  | ONeed _ t' rs _ _ => t' = t /\ In x rs /\ forall y, In y rs -> In (t, y) D
+  | OAllOf t' rs _ => t' = t /\ In x rs /\ forall y, In y rs -> In (t, y) D
+  | ODep t' c => t' = t /\ x = RCls c
+  | _ => False
+  end.
+Definition Decl (g : graph) (D : list (ref * root)) (t : ref) (x : root) : Prop :=
+  exists m p i, In m g /\ prog_of m p /\ In i p /\ dep_decl D (i_op i) t x.
+Definition inv_d (g : graph) (s : st) : Prop := forall t x, In (t, x) (s_deps s) -> Decl g (s_deps s) t x.
+
+Lemma Decl_mono g D D' t x : incl D D' -> Decl g D t x -> Decl g D' t x.
+Proof.
+  intros Hi (m & p & i & Hm & Hp & Hin & Hd). exists m, p, i. repeat split; auto.
+  destruct (i_op i); cbn in *; try tauto; destruct Hd as (A & B & C); repeat split; auto.
+Qed.
+
+Lemma exec_op_inv cx g m p i s s' r : In m g -> prog_of m p -> In i p -> (forall e, In e (c_ents cx) -> AE g e) ->
+  exec_op cx s (i_op i) = (s', r) -> inv_q g s /\ inv_d g s -> inv_q g s' /\ inv_d g s'.
+Proof.
+  intros Hm Hp Hi Hents H [[Q1 Q2] ID].
+  assert (Hmono : forall D', incl (s_deps s) D' -> forall t x, In (t, x) (s_deps s) -> Decl g D' t x).
+  { intros D' Hincl t x Hin. eapply Decl_mono; [exact Hincl|]. now apply ID. }
+  destruct (i_op i) eqn:Eo; cbn [exec_op] in H.
+  - inversion H; subst. split; [split|]; assumption.
+  - destruct (lookup (s_cbr s) t) as [pl|] eqn:L; [|inversion H; subst; split; [split|]; assumption].
+    inversion H; subst; clear H. split; [split|]; cbn [s_queue s_cbr s_deps].
+    + intros q Hq. apply in_app_or in Hq. destruct Hq as [Hq|Hq]; [now apply Q1|].
+      destruct k, pl; cbn in Hq; try contradiction. destruct Hq as [Hq|[]]. subst q. cbn. eapply Q2; eauto.
+    + exact Q2.
+    + intros t0 x Hin. unfold add_deps in Hin. apply in_app_or in Hin. destruct Hin as [Hin|Hin].
+      * apply in_map_iff in Hin. destruct Hin as [y [E Hy]]. inversion E; subst.
+        exists m, p, i. repeat split; auto. rewrite Eo. cbn. repeat split; auto.
+        intros y Hy'. unfold add_deps. apply in_or_app. left. apply in_map_iff. eauto.
+      * apply Hmono; [|exact Hin]. unfold add_deps. apply incl_appr, incl_refl.
+  - destruct (lookup (s_cbr s) t) as [[e|]|] eqn:L; try (inversion H; subst; split; [split|]; assumption).
+    destruct (mem t (s_done s)); [|inversion H; subst; split; [split|]; assumption].
+    inversion H; subst; clear H. split; [split|]; cbn [s_queue s_cbr s_deps]; auto.
+    intros t0 x Hin. unfold add_deps in Hin. apply in_app_or in Hin. destruct Hin as [Hin|Hin].
+    + apply in_map_iff in Hin. destruct Hin as [y [E Hy]]. inversion E; subst.
+      exists m, p, i. repeat split; auto. rewrite Eo. cbn. repeat split; auto.
+      intros y Hy'. unfold add_deps. apply in_or_app. left. apply in_map_iff. eauto.
+    + apply Hmono; [|exact Hin]. unfold add_deps. apply incl_appr, incl_refl.
+  - inversion H; subst; clear H. split; [split|]; cbn [s_queue s_cbr s_deps]; auto.
+    intros t0 x Hin. unfold add_deps in Hin. apply in_app_or in Hin. destruct Hin as [Hin|Hin].
+    + destruct Hin as [E|[]]. inversion E; subst. exists m, p, i. repeat split; auto. rewrite Eo. cbn. auto.
+    + apply Hmono; [|exact Hin]. unfold add_deps. apply incl_appr, incl_refl.
+  - destruct (has (s_cbn s) c); [inversion H; subst; split; [split|]; assumption|].
+    inversion H; subst; clear H. split; [split|]; cbn [s_queue s_cbr s_deps]; auto.
+    intros q0 Hq. apply in_app_or in Hq. destruct Hq as [Hq|Hq]; [now apply Q1|].
+    unfold push_entry in Hq. destruct q as [k|]; [|contradiction].
+    destruct (nth_error (c_ents cx) k) as [e|] eqn:En; [|contradiction]. destruct Hq as [Hq|[]]. subst q0. cbn.
+    apply Hents. eapply nth_error_In; eauto.
+  - destruct (lookup (s_cbn s) c) as [[|v']|].
+    + inversion H; subst. split; [split|]; assumption.
+    + destruct (v' =? v); inversion H; subst; (split; [split|]; assumption).
+    + inversion H; subst. split; [split|]; assumption.
+Qed.
+
+Lemma exec_inv cx g m p : In m g -> prog_of m p -> (forall e, In e (c_ents cx) -> AE g e) ->
+  forall p' s s' r, incl p' p -> exec cx s p' = (s', r) -> inv_q g s /\ inv_d g s -> inv_q g s' /\ inv_d g s'.
+Proof.
+  intros Hm Hp Hents. induction p' as [|i p' IH]; intros s s' r Hincl H HI; cbn [exec] in H.
+  - inversion H; subst. exact HI.
+  - destruct (exec_op cx s (i_op i)) as [s1 [c|]] eqn:E.
+    + inversion H; subst. eapply exec_op_inv; eauto. apply Hincl. now left.
+    + eapply IH; [|exact H|]. { intros a Ha. apply Hincl. now right. }
+      eapply exec_op_inv; eauto. apply Hincl. now left.
+Qed.
+
+Lemma lookup_cons {A} (l : list (N * A)) k k' v : lookup ((k', v) :: l) k = if k' =? k then Some v else lookup l k.
+Proof. reflexivity. Qed.
+
+Lemma create_try_inv g n s s' r : In n g -> create_try s n = (s', r) -> inv_q g s /\ inv_d g s -> inv_q g s' /\ inv_d g s'.
+Proof.
+  intros Hn H HI. unfold create_try in H.
+  destruct (exec (ctx_of n) s (n_create n)) as [s1 [c|]] eqn:E.
+  - inversion H; subst; clear H.
+    assert (HI1 : inv_q g s1 /\ inv_d g s1).
+    { eapply (exec_inv (ctx_of n) g n (n_create n)); eauto; [now left| |apply incl_refl].
+      intros e He. exists n. split; assumption. }
+    destruct HI as [[Q1 Q2] _]. destruct HI1 as [_ ID1]. unfold revert. split; [split|]; cbn; auto.
+  - inversion H; subst; clear H.
+    assert (HI1 : inv_q g s1 /\ inv_d g s1).
+    { eapply (exec_inv (ctx_of n) g n (n_create n)); eauto; [now left| |apply incl_refl].
+      intros e He. exists n. split; assumption. }
+    destruct HI1 as [[Q1 Q2] ID1]. split; [split|]; cbn [s_queue s_cbr s_deps]; auto.
+    intros r0 e. rewrite lookup_cons. destruct (n_ref n =? r0); [|apply Q2].
+    intro Hl. inversion Hl as [Hp]. unfold node_payload in Hp. destruct (n_top n) as [k|t|].
+    + destruct (nth_error (n_entries n) k) as [en|] eqn:En; [|discriminate]. inversion Hp; subst.
+      exists n. split; [exact Hn|eapply nth_error_In; eauto].
+    + destruct (lookup (s_cbr s1) t) as [pl|] eqn:Lt; [|discriminate]. subst pl. eapply Q2; eauto.
+    + discriminate.
+Qed.
+
+Lemma proc_try_inv g q s s' r : AE g (q_entry q) -> proc_try s q = (s', r) -> inv_q g s /\ inv_d g s -> inv_q g s' /\ inv_d g s'.
+Proof.
+  intros [m [Hm He]] H HI. unfold proc_try in H.
+  destruct (exec ctx_proc s (e_prog (q_entry q))) as [s1 [c|]] eqn:E; inversion H; subst; clear H.
+  - assert (HI1 : inv_q g s1 /\ inv_d g s1).
+    { eapply (exec_inv ctx_proc g m (e_prog (q_entry q))); eauto; [right; eauto|intros e []|apply incl_refl]. }
+    destruct HI as [[Q1 Q2] _]. destruct HI1 as [_ ID1]. unfold revert. split; [split|]; cbn; auto.
+  - assert (HI1 : inv_q g s1 /\ inv_d g s1).
+    { eapply (exec_inv ctx_proc g m (e_prog (q_entry q))); eauto; [right; eauto|intros e []|apply incl_refl]. }
+    destruct HI as [[Q1 Q2] _]. destruct HI1 as [[Q1' Q2'] ID1]. split; [split|]; cbn [s_queue s_cbr s_deps]; auto.
+Qed.
+
+Lemma provenance g :
+  let s1 := r_st (create_loop g) in let s2 := r_st (process_loop s1) in
+  inv_q g s1 /\ inv_d g s2.
+Proof.
+  cbn zeta.
+  assert (H1 : inv_q g (r_st (create_loop g)) /\ inv_d g (r_st (create_loop g))).
+  { unfold create_loop, run_loop.
+    pose proof (loop_inv create_try no_final (fun s => inv_q g s /\ inv_d g s) (fun _ _ => True) (fun n => In n g)) as L.
+    assert (P_step : forall s x s' r, In x g -> inv_q g s /\ inv_d g s -> create_try s x = (s', r) -> inv_q g s' /\ inv_d g s')
+      by (intros; eapply create_try_inv; eauto).
+    specialize (L P_step (fun _ _ _ _ _ _ _ _ _ => I) (fun _ _ _ _ _ _ => I) (S (length (create_todo g))) (create_todo g) st0 []
+                  (Nat.lt_succ_diag_r _) (create_todo_in g)).
+    assert (H0 : inv_q g st0 /\ inv_d g st0).
+    { split; [split|].
+      - intros q Hq. destruct Hq.
+      - intros r e Hl. discriminate Hl.
+      - intros t x Hin. destruct Hin. }
+    specialize (L H0). cbn zeta in L. tauto. }
+  split; [tauto|].
+  unfold process_loop, run_loop.
+  pose proof (loop_inv proc_try is_rec (fun s => inv_q g s /\ inv_d g s) (fun _ _ => True) (fun q => AE g (q_entry q))) as L.
+  assert (P_step : forall s x s' r, AE g (q_entry x) -> inv_q g s /\ inv_d g s -> proc_try s x = (s', r) -> inv_q g s' /\ inv_d g s')
+    by (intros; eapply proc_try_inv; eauto).
+  specialize (L P_step (fun _ _ _ _ _ _ _ _ _ => I) (fun _ _ _ _ _ _ => I) (S (length (s_queue (r_st (create_loop g)))))
+                (s_queue (r_st (create_loop g))) (r_st (create_loop g)) [] (Nat.lt_succ_diag_r _)).
+  destruct H1 as [[Q1 Q2] ID]. specialize (L Q1 (conj (conj Q1 Q2) ID)). cbn zeta in L. tauto.
+Qed.
+
+(* ------------------------------------------------------------------ class names: disjointness unpacked *)
+Lemma disjoint_all_spec {A} (f : A -> list N) : forall (l : list A) a b c,
+  disjoint_all (map f l) = true -> In a l -> In b l -> In c (f a) -> In c (f b) -> a = b.
+Proof.
+  induction l as [|x l IH]; intros a b c H Ha Hb Hca Hcb; [contradiction|].
+  cbn [map disjoint_all] in H. apply andb_true_iff in H. destruct H as [H1 H2]. rewrite forallb_forall in H1.
+  assert (K : forall y, In y l -> In c (f x) -> In c (f y) -> False).
+  { intros y Hy Hx Hy'. specialize (H1 (f y) (in_map f _ _ Hy)). rewrite forallb_forall in H1. specialize (H1 c Hx).
+    apply negb_true_iff in H1. apply mem_in in Hy'. congruence. }
+  destruct Ha as [Ha|Ha], Hb as [Hb|Hb]; subst; auto.
+  - exfalso. eapply K; eauto.
+  - exfalso. eapply K; eauto.
+  - eapply IH; eauto.
+Qed.
+
+Lemma roots_cls_in c rs : In (RCls c) rs -> In c (roots_cls rs).
+Proof. intro H. unfold roots_cls. apply in_flat_map. exists (RCls c). split; [exact H|now left]. Qed.
+
+Lemma prog_cls_in p i c : In i p -> In c (op_cls (i_op i)) -> In c (prog_cls p).
+Proof. intros Hi Hc. unfold prog_cls. apply in_flat_map. eauto. Qed.
+
+Lemma prog_mints_cls p c : In c (prog_mints p) -> In c (prog_cls p).
+Proof.
+  unfold prog_mints, prog_cls. intro H. apply in_flat_map in H. destruct H as [i [Hi Hc]]. apply in_flat_map. exists i. split; [exact Hi|].
+  destruct (i_op i); cbn in *; tauto.
+Qed.
+
+Lemma node_mints_cls n c : In c (node_mints n) -> In c (node_cls n).
+Proof.
+  unfold node_mints, node_cls. intro H. apply in_app_or in H. apply in_or_app. destruct H as [H|H].
+  - left. now apply prog_mints_cls.
+  - right. apply in_flat_map in H. destruct H as [e [He Hc]]. apply in_flat_map. exists e. split; [exact He|].
+    unfold entry_cls. right. apply in_or_app. right. now apply prog_mints_cls.
+Qed.
+
+Lemma prog_of_cls m p i c : prog_of m p -> In i p -> In c (op_cls (i_op i)) -> In c (node_cls m).
+Proof.
+  intros [->|[e [He ->]]] Hi Hc; unfold node_cls; apply in_or_app.
+  - left. eapply prog_cls_in; eauto.
+  - right. apply in_flat_map. exists e. split; [exact He|]. unfold entry_cls. right. apply in_or_app. right. eapply prog_cls_in; eauto.
+Qed.
+
+Lemma prog_of_edges m p e : prog_of m p -> In e (prog_edges p) -> In e (node_edges m).
+Proof.
+  intros [->|[en [He ->]]] Hin; unfold node_edges; apply in_or_app; [now left|right].
+  apply in_flat_map. eauto.
+Qed.
+
+Lemma wf_node_dep_self n p i r c : wf_node n = true -> prog_of n p -> In i p -> i_op i = ODep r c -> r = n_ref n.
+Proof.
+  unfold wf_node. intros H Hp Hi Ho. apply andb_true_iff in H. destruct H as [H H3]. apply andb_true_iff in H. destruct H as [_ H2].
+  assert (Hs : prog_self (n_ref n) p = true).
+  { destruct Hp as [->|[e [He ->]]]; [exact H2|]. rewrite forallb_forall in H3. specialize (H3 _ He). apply andb_true_iff in H3. tauto. }
+  unfold prog_self in Hs. rewrite forallb_forall in Hs. specialize (Hs _ Hi). rewrite Ho in Hs. cbn in Hs. now apply N.eqb_eq in Hs.
+Qed.
+
+(* under the guards, every model class of a surviving component has been processed *)
+Lemma survivor_done g : wf_graph g = true -> g_no_union_edge_to_failing g = true ->
+  forall n, In n g -> has (res_cbr (build_schemas g)) (n_ref n) = true ->
+  let s2 := r_st (process_loop (r_st (create_loop g))) in
+  prog_done [] (n_create n) s2 /\ forall en, In en (n_entries n) -> prog_done [] (e_prog en) s2.
+Proof.
+  intros Hwf Hg n Hn Hs. cbn zeta.
+  destruct (wf_graph_spec _ Hwf) as [Hnd Hwn]. destruct (guard_spec _ Hg) as [G1 G2].
+  destruct (build_facts g) as [es (F1 & F2 & F3 & F4 & F5 & F6 & F7 & F8 & F9)]. cbn zeta in *.
+  set (R := build_schemas g) in *. set (s1 := r_st (create_loop g)) in *. set (pl := process_loop s1) in *. set (s2 := r_st pl) in *.
+  destruct (create_phase_spec g Hnd) as [IC _]. fold s1 in IC.
+  destruct (process_phase_spec s1) as (P1 & P2 & P3 & P4 & P5). fold pl in P1, P2, P3, P4, P5. fold s2 in P1, P2, P3.
+  assert (Hs1 : has (s_cbr s1) (n_ref n) = true) by (rewrite <- P1; apply F3, Hs).
+  split.
+  - apply prog_done_drop_ents with (ents := n_entries n). eapply prog_done_ext; [exact P2|]. now apply IC.
+  - intros en Hen.
+    destruct (wf_node_pushed n en (Hwn n Hn) Hen) as [i [j (Hi & Ho & Hj)]].
+    destruct (IC n Hn Hs1) as (_ & _ & D3 & _). destruct (D3 i _ _ _ Hi Ho Hj) as [ow Hq].
+    destruct (P3 _ Hq) as [Hd|Herr]; [exact Hd|exfalso].
+    assert (Hm : exists c, In (mkQ ow (e_name en) en, c) (r_final pl ++ r_retry pl)).
+    { destruct Herr as [[c H]|[c H]]; exists c; apply in_or_app; [now right|now left]. }
+    destruct Hm as [c Hm]. destruct (F7 _ _ Hm) as [er (E1 & E2 & E3 & E4 & E5)]. cbn [q_entry] in E5.
+    assert (Hin : In er (res_errs R)) by (rewrite F1; apply in_or_app; now right).
+    destruct (G2 er Hin) as [Hc|[r Hr]]; [congruence|].
+    rewrite E5 in Hr. pose proof (wf_node_entry_self n en r (Hwn n Hn) Hen Hr) as ->.
+    specialize (F5 _ _ _ Hm Hr). cbn in F5. congruence.
+Qed.
+
+(* ------------------------------------------------------------------ T classes_closed (C08/C07): under the guards, every class a
+   surviving component mints (its own model class, inline models and enums of its properties, of its items and union members)
+   is in classes_by_name at the end: its module is generated *)
+Theorem classes_closed g : wf_graph g = true -> g_no_name_pressure g = true -> g_no_union_edge_to_failing g = true ->
+  forall n, In n g -> has (res_cbr (build_schemas g)) (n_ref n) = true ->
+  forall c, In c (node_mints n) -> has (res_cbn (build_schemas g)) c = true.
+Proof.
+  intros Hwf Hnp Hg n Hn Hs c Hc.
+  destruct (survivor_done g Hwf Hg n Hn Hs) as [SD1 SD2]. cbn zeta in SD1, SD2.
+  destruct (wf_graph_spec _ Hwf) as [Hnd Hwn]. destruct (guard_spec _ Hg) as [G1 G2].
+  destruct (provenance g) as [[Q1 Q2] ID]. cbn zeta in ID.
+  destruct (build_facts g) as [es (F1 & F2 & F3 & F4 & F5 & F6 & F7 & F8 & F9)]. cbn zeta in *.
+  set (R := build_schemas g) in *. set (s1 := r_st (create_loop g)) in *. set (pl := process_loop s1) in *. set (s2 := r_st pl) in *.
+  destruct (process_phase_spec s1) as (P1 & P2 & P3 & P4 & P5). fold pl in P1, P2, P3, P4, P5. fold s2 in P1, P2, P3.
+  (* the class was there before the removals *)
+  assert (Hc2 : has (s_cbn s2) c = true).
+  { unfold node_mints in Hc. apply in_app_or in Hc. destruct Hc as [Hc|Hc].
+    - destruct SD1 as (_ & D2 & _). now apply D2.
+    - apply in_flat_map in Hc. destruct Hc as [en [Hen Hc]]. destruct (SD2 en Hen) as (_ & D2 & _). now apply D2. }
+  destruct (has (res_cbn R) c) eqn:Ec; [reflexivity|exfalso].
+  pose proof (node_mints_cls _ _ Hc) as Hcn.
+  destruct (F9 c Hc2 Ec) as [[q [cat [Hm Hr]]]|[r (Hr1 & Hr2 & Hr3)]].
+  - (* c among the roots of a model that failed: it is one of n's own models, whose roots name n *)
+    assert (Hq : In q (s_queue s1)) by (apply in_app_or in Hm; destruct Hm as [Hm|Hm]; [eapply P5|eapply P4]; eauto).
+    destruct (Q1 q Hq) as [m [Hm1 Hm2]].
+    assert (m = n).
+    { eapply (disjoint_all_spec node_cls g m n c); eauto. unfold node_cls. apply in_or_app. right. apply in_flat_map.
+      exists (q_entry q). split; [exact Hm2|]. unfold entry_cls. right. apply in_or_app. left. now apply roots_cls_in. }
+    subst m.
+    destruct (F7 _ _ Hm) as [er (E1 & E2 & E3 & E4 & E5)].
+    assert (Hin : In er (res_errs R)) by (rewrite F1; apply in_or_app; now right).
+    destruct (G2 er Hin) as [Hx|[r Hr']]; [congruence|].
+    rewrite E5 in Hr'. pose proof (wf_node_entry_self n _ r (Hwn n Hn) Hm2 Hr') as ->.
+    specialize (F5 _ _ _ Hm Hr'). cbn in F5. congruence.
+  - (* c recorded as a dependant of a removed reference: the recording instruction belongs to n *)
+    destruct (ID _ _ Hr3) as (m & p & i & Hm & Hp & Hi & Hd).
+    destruct (i_op i) eqn:Eo; cbn in Hd; try contradiction.
+    + destruct Hd as (-> & Hx & Hall).
+      assert (m = n).
+      { eapply (disjoint_all_spec node_cls g m n c); eauto. eapply prog_of_cls; eauto. rewrite Eo. cbn. now apply roots_cls_in. }
+      subst m.
+      assert (He : In (k, r, rs) (node_edges n)).
+      { eapply prog_of_edges; eauto. unfold prog_edges. apply in_flat_map. exists i. split; [exact Hi|]. rewrite Eo. now left. }
+      destruct (G1 n Hn _ He) as [Hrec|Hsurv]; [|cbn in Hsurv; congruence].
+      unfold recorded in Hrec. cbn [snd] in Hrec. apply mem_root_in in Hrec.
+      destruct (F6 r Hr1 Hr2) as [_ Hh]. specialize (Hh _ (Hall _ Hrec)). cbn in Hh. congruence.
+    + destruct Hd as (-> & Hx & Hall).
+      assert (m = n).
+      { eapply (disjoint_all_spec node_cls g m n c); eauto. eapply prog_of_cls; eauto. rewrite Eo. cbn. now apply roots_cls_in. }
+      subst m.
+      assert (He : In (EAllOf, r, rs) (node_edges n)).
+      { eapply prog_of_edges; eauto. unfold prog_edges. apply in_flat_map. exists i. split; [exact Hi|]. rewrite Eo. now left. }
+      destruct (G1 n Hn _ He) as [Hrec|Hsurv]; [|cbn in Hsurv; congruence].
+      unfold recorded in Hrec. cbn [snd] in Hrec. apply mem_root_in in Hrec.
+      destruct (F6 r Hr1 Hr2) as [_ Hh]. specialize (Hh _ (Hall _ Hrec)). cbn in Hh. congruence.
+    + destruct Hd as (-> & Hx). inversion Hx; subst c0.
+      assert (m = n).
+      { eapply (disjoint_all_spec node_cls g m n c); eauto. eapply prog_of_cls; eauto. rewrite Eo. cbn. now left. }
+      subst m. pose proof (wf_node_dep_self n p i r c (Hwn n Hn) Hp Hi Eo) as ->. congruence.
+Qed.
+
+(* R name pressure: M has an inline object property whose minted class name is the class name of component MP.  M fails with a
+   duplicate-name diagnostic; the dependency (M, class MP) recorded BEFORE the duplicate check makes the removal of M pop the
+   class of the unrelated component MP, which stays referenced by User: no module for MP, no diagnostic naming MP *)
+Definition witness_pressure : graph :=
+  [mkN 1 false (TModel 0%nat) [mkI (OMintModel 1 (Some 0%nat)) 0] [mkE 1 1 [RRef 1; RCls 1] []];
+   mkN 2 false (TModel 0%nat) [mkI (OMintModel 2 (Some 0%nat)) 0] [mkE 2 2 [RRef 2; RCls 2] [mkI (ODep 2 1) 0; mkI (OMintModel 1 None) 0]];
+   mkN 3 false (TModel 0%nat) [mkI (OMintModel 3 (Some 0%nat)) 0] [mkE 3 3 [RRef 3; RCls 3] [mkI (ONeed EProp 1 [RRef 3; RCls 3] 0 false) 0]]].
+Theorem name_pressure_refuted :
+  exists g, wf_graph g = true /\ g_no_union_edge_to_failing g = true /\ g_no_name_pressure g = false /\
+    exists n c, In n g /\ has (res_cbr (build_schemas g)) (n_ref n) = true /\ In c (node_mints n) /\
+                has (res_cbn (build_schemas g)) c = false /\
+                forall e, In e (res_errs (build_schemas g)) -> er_unit e <> n_ref n /\ ~ In (n_ref n) (er_removed e).
+Proof.
+  exists witness_pressure. split; [vm_compute; reflexivity|]. split; [vm_compute; reflexivity|]. split; [vm_compute; reflexivity|].
+  exists (mkN 1 false (TModel 0%nat) [mkI (OMintModel 1 (Some 0%nat)) 0] [mkE 1 1 [RRef 1; RCls 1] []]), 1.
+  split; [left; reflexivity|]. split; [vm_compute; reflexivity|]. split; [left; reflexivity|]. split; [vm_compute; reflexivity|].
+  vm_compute. intros e [<-|[]]. cbn. split; [discriminate|]. intros [H|[]]. discriminate.
+Qed.
